@@ -53,10 +53,11 @@ Protocol (`c10 kind=<k> …`; every value is a decimal integer or a comma separa
   kind=plusminus n= plus= minus=
       -> `ok= n=`; `compute_plus_minus` on an n x n matrix with `px_plus_y` of `plus` and `px_minus_y` of `minus` elements.
   kind=zoomshift shape=<ints> order=<0..5> mode=<0..5> coord=<ints, one per axis>
-      -> `ok= n= term= sum= flag=`; `zoom_shift` at ONE output position of a C-contiguous array: `coord` holds
+      -> `ok= n= term= sum= flag= idx=`; `zoom_shift` at ONE output position of a C-contiguous array: `coord` holds
          per axis `round(cc)` (outside the array) resp. `floor(cc)` / `floor(cc+0.5)` (inside); `flag=1` when the
          border rule flags an axis (no access); else all `(order+1)^rank` indices `idxs[fi]` against the array size;
-         `sum` = Σ of the indices (compared with a direct evaluation by the harness).
+         `sum` = Σ of the indices, `idx` = the indices in the order of `fi` (compared by the harness with a direct
+         evaluation and with the elements the real `zoom_shift` reads, recovered with one-hot arrays).
   kind=spline  len= mxs=<ints, one horizon per pole>   -> `ok= n= term= sum=`; one line of `spline_filter1d`
   kind=haar n1= | kind=wavelet n1= nc= | kind=iwavelet n1= nc= step= | kind=ihaar n1= step=  -> `ok= n= term= sum=`
   kind=integral n0= n1=   -> `ok= n= term= sum=`
@@ -815,10 +816,11 @@ def handle (a : Args) : String :=
       let shape := a.nats "shape"
       let order := a.nat "order"
       match zsStarts m order shape (a.ints "coord") with
-      | none => report2 [] ++ " flag=1"
+      | none => report2 [] ++ " flag=1 idx=-"
       | some starts =>
         let n : Int := shapeSize shape
-        report2 ((zsAccesses shape (cStrides shape) order starts).map fun i => Acc.mk i n) ++ " flag=0"
+        let idx := zsAccesses shape (cStrides shape) order starts
+        report2 (idx.map fun i => Acc.mk i n) ++ s!" flag=0 idx={showInts idx}"
   | "spline" => report2 (splineAccesses (a.int "len") (a.ints "mxs"))
   | "haar" => report2 (haarAccesses (a.int "n1")) (haarDone (a.int "n1"))
   | "wavelet" => report2 (waveletAccesses (a.int "n1") (a.int "nc")) (waveletDone (a.int "n1") (a.int "nc"))
